@@ -30,6 +30,12 @@ Definition query_agrees (arts : list artifact) (q : query) : bool :=
 Definition agrees (c : case) : bool :=
   match c with
   | CResolve arts qs => forallb (query_agrees arts) qs
+  | CChecksum512 s o =>
+      match parse_checksum (beq GenInventory.sha512_name) (N.eqb spec_sha512_len) s, o with
+      | Ok (n, v), CkOk n' v' _ _ => beq n n' && beq v v'
+      | Err e, CkErr e' => err_eqb e e'
+      | _, _ => false
+      end
   | CChecksum s o =>
       match parse_checksum (beq GenInventory.sha256_name) (N.eqb spec_sha256_len) s, o with
       | Ok (n, v), CkOk n' v' _ _ => beq n n' && beq v v'
